@@ -1,7 +1,6 @@
 PROP = dict(
-    unclaimed=True,
     module="M3d.Props.C03",
-    corr=dict(quick=240, thorough=1500),
+    corr=dict(quick=500, thorough=3000),
     gen=[],
     corr_theorems=(
         "kind `tree` compares Min()/Max()/BoundsValid/Contains of the REAL solid built by the library's constructors with "
